@@ -1,9 +1,12 @@
 //! e57check - property checks for cry-inc/e57 (property-based testing and fuzzing).
 mod adapt;
 mod c01;
+mod c02;
+mod c03;
 mod dev;
 mod gen;
 mod kit;
+mod preflight;
 mod prog;
 
 use kit::{run_check, RunOpts, Tier};
@@ -57,6 +60,18 @@ fn main() {
     kit::install_panic_hook();
     let code = match id.as_str() {
         "C01" => run_check::<c01::C01>(&opts),
+        "C02" => run_check::<c02::C02>(&opts),
+        "C03" => run_check::<c03::C03>(&opts),
+        "preflight" => match preflight::decoder_preflight() {
+            Ok(()) => {
+                println!("preflight ok");
+                0
+            }
+            Err(e) => {
+                eprintln!("preflight failed: {e}");
+                2
+            }
+        },
         _ => {
             eprintln!("unknown property id {id}");
             2
